@@ -60,6 +60,13 @@ type c10Route struct {
 	f    func(t tabular.Table) (string, error)
 }
 
+// c10StatusOnly prefixes the name of a route whose destination shows nothing (io.Discard itself): only whether the
+// render is refused is compared.
+const c10StatusOnly = "[into io.Discard, status compared] "
+
+// intoDiscard renders into the value io.Discard: whether a render succeeds or is refused is not the destination's business.
+func intoDiscard(f func(w io.Writer) error) (string, error) { return "", f(io.Discard) }
+
 // c10Mutating prefixes the name of a route which itself reconfigures the object it is handed (such a route is not
 // used on top of wrapper chains whose members are rendered again afterwards).
 const c10Mutating = "[reconfigures its argument] "
@@ -88,6 +95,7 @@ func c10Targets() []c10Target {
 				return viaTo(func(w io.Writer) error { return auto.RenderTo(t, w, "CSV") })
 			}},
 			{"auto.Wrap(t,csv.x.y).Render", func(t tabular.Table) (string, error) { return auto.Wrap(t, "csv.x.y").Render() }},
+			{c10StatusOnly + "csv.Wrap(t).RenderTo(io.Discard)", func(t tabular.Table) (string, error) { return intoDiscard(csv.Wrap(t).RenderTo) }},
 		}},
 		{"html", []c10Route{
 			{"html.Wrap(t).Render", func(t tabular.Table) (string, error) { return html.Wrap(t).Render() }},
@@ -97,6 +105,7 @@ func c10Targets() []c10Target {
 				return viaTo(func(w io.Writer) error { return auto.RenderTo(t, w, "Html") })
 			}},
 			{"auto.Wrap(t,html).RenderTo(w)", func(t tabular.Table) (string, error) { return viaTo(auto.Wrap(t, "html").RenderTo) }},
+			{c10StatusOnly + "html.Wrap(t).RenderTo(io.Discard)", func(t tabular.Table) (string, error) { return intoDiscard(html.Wrap(t).RenderTo) }},
 		}},
 		{"json", []c10Route{
 			{"json.Wrap(t).Render", func(t tabular.Table) (string, error) { return json.Wrap(t).Render() }},
@@ -107,6 +116,9 @@ func c10Targets() []c10Target {
 			{"json.Wrap(t).RenderTo(w)", func(t tabular.Table) (string, error) { return viaTo(json.Wrap(t).RenderTo) }},
 			{"auto.Render(t,json)", func(t tabular.Table) (string, error) { return auto.Render(t, "json") }},
 			{"auto.Wrap(t,JSON).RenderTo(w)", func(t tabular.Table) (string, error) { return viaTo(auto.Wrap(t, "JSON").RenderTo) }},
+			{c10StatusOnly + "json.RenderTo(t, io.Discard)", func(t tabular.Table) (string, error) {
+				return intoDiscard(func(w io.Writer) error { return json.RenderTo(t, w) })
+			}},
 		}},
 		{"markdown", []c10Route{
 			{"markdown.Wrap(t).Render", func(t tabular.Table) (string, error) { return markdown.Wrap(t).Render() }},
@@ -117,6 +129,9 @@ func c10Targets() []c10Target {
 			{"markdown.Wrap(t).RenderTo(w)", func(t tabular.Table) (string, error) { return viaTo(markdown.Wrap(t).RenderTo) }},
 			{"auto.Render(t,markdown)", func(t tabular.Table) (string, error) { return auto.Render(t, "markdown") }},
 			{"auto.Wrap(t,Markdown.gfm).Render", func(t tabular.Table) (string, error) { return auto.Wrap(t, "Markdown.gfm").Render() }},
+			{c10StatusOnly + "auto.RenderTo(t, io.Discard, markdown)", func(t tabular.Table) (string, error) {
+				return intoDiscard(func(w io.Writer) error { return auto.RenderTo(t, w, "markdown") })
+			}},
 		}},
 	}
 	def := c10Target{"text:(default decoration)", []c10Route{
@@ -128,6 +143,7 @@ func c10Targets() []c10Target {
 		{"texttable.Wrap(t).RenderTo(w)", func(t tabular.Table) (string, error) { return viaTo(texttable.Wrap(t).RenderTo) }},
 		{"auto.Render(t,texttable)", func(t tabular.Table) (string, error) { return auto.Render(t, "texttable") }},
 		{"auto.Wrap(t,TextTable).RenderTo(w)", func(t tabular.Table) (string, error) { return viaTo(auto.Wrap(t, "TextTable").RenderTo) }},
+		{c10StatusOnly + "texttable.Wrap(t).RenderTo(io.Discard)", func(t tabular.Table) (string, error) { return intoDiscard(texttable.Wrap(t).RenderTo) }},
 	}}
 	ts = append(ts, def)
 	c10RegisterOnce.Do(func() {
@@ -324,11 +340,15 @@ func c10Run(c *Ctx, i int, r *gen.R) {
 	fresh := func(p c10Path) tabular.Table { return spec.Build(p.mk()).T }
 	for _, tg := range targets {
 		refOut, refErr := tg.routes[0].f(fresh(paths[0]))
-		compare := func(how string, out string, err error) bool {
+		compare := func(how string, out string, err error, statusOnly bool) bool {
 			c.Rec.Count("outputs_compared", 1)
 			if (err != nil) != (refErr != nil) {
 				c.Rec.Violate("status-differs:"+tg.format, fmt.Sprintf("format %s: %s gives error=%v, the reference (tabular.New + %s) gives error=%v", tg.format, how, err, tg.routes[0].name, refErr), cs)
 				return false
+			}
+			if statusOnly {
+				c.Rec.Count("renders_into_io.Discard_whose_status_was_compared", 1)
+				return true
 			}
 			if out != refOut {
 				c.Rec.Violate("bytes-differ:"+tg.format, fmt.Sprintf("format %s: %s produces %q, the reference (tabular.New + %s) produces %q", tg.format, how, out, tg.routes[0].name, refOut), cs)
@@ -345,7 +365,7 @@ func c10Run(c *Ctx, i int, r *gen.R) {
 					continue
 				}
 				out, err := rt.f(fresh(p))
-				if !compare(fmt.Sprintf("%s on a table created by %s", rt.name, p.name), out, err) {
+				if !compare(fmt.Sprintf("%s on a table created by %s", rt.name, p.name), out, err, strings.HasPrefix(rt.name, c10StatusOnly)) {
 					return
 				}
 				if err != nil && pi < 2 && !c10Canary(c, cs, tg.format) {
@@ -384,7 +404,7 @@ func c10Run(c *Ctx, i int, r *gen.R) {
 			}
 			out, err := rt.f(t)
 			c.Rec.Count("nested_wrapper_chains", 1)
-			if !compare(fmt.Sprintf("%s on %s", rt.name, chain), out, err) {
+			if !compare(fmt.Sprintf("%s on %s", rt.name, chain), out, err, strings.HasPrefix(rt.name, c10StatusOnly)) {
 				return
 			}
 			// every wrapper of the chain still is what it was before something was wrapped around it and rendered
